@@ -87,6 +87,48 @@ fn kmeans_model(r: &mut Runner) {
         };
         round_trip(o, &Spec::full(&obs).mutating(&advance), &m);
     }
+    /// Precomputed centroids handed in COLUMN-MAJOR memory order (a caller who keeps one centroid
+    /// per column and passes the transpose); the incremental path keeps that layout in the model.
+    /// `p` features: 4, 5, 7, 9 (from 4 on, unrolled / vectorised sums can differ from sequential ones)
+    fn go_f_order_centroids<F: SF, D: Distance<F> + Serialize + DeserializeOwned + PartialEq + std::fmt::Debug + 'static>(o: &mut Out, d: D, p: usize, incremental: bool) {
+        let (x, _) = blobs::<F>(96, p, 3, 11);
+        let init = to_f_order(&x.slice(ndarray::s![0..3, ..]).to_owned());
+        if init.is_standard_layout() {
+            o.machinery("precomputed centroids meant to be column-major are in standard layout");
+        }
+        let params = KMeans::params_with(3, rng(7), d).init_method(KMeansInit::Precomputed(init)).n_runs(1).max_n_iterations(20).tolerance(F::cast(1e-3));
+        let m = if incremental {
+            let mut model = None;
+            for chunk in x.axis_chunks_iter(Axis(0), 32) {
+                let ds = Dataset::from(chunk.to_owned());
+                model = Some(match params.fit_with(model, &ds) {
+                    Ok(m) => m,
+                    Err(IncrKMeansError::NotConverged(m)) => m,
+                    Err(e) => o.machinery(&es(e)),
+                });
+            }
+            model.unwrap()
+        } else {
+            o.need("kmeans fit", params.fit(&Dataset::from(x.clone())))
+        };
+        let q = pool::<F>(p, Some(&x));
+        let obs = |m: &KMeans<F, D>| kmeans_obs(m, &q);
+        let batch = Dataset::from(x.slice(ndarray::s![0..32, ..]).to_owned());
+        let advance = |m: &KMeans<F, D>| match params.fit_with(Some(m.clone()), &batch) {
+            Ok(m) => m,
+            Err(IncrKMeansError::NotConverged(m)) => m,
+            Err(e) => panic!("fit_with: {:?}", e),
+        };
+        round_trip(o, &Spec::full(&obs).mutating(&advance), &m);
+    }
+    for p in [4usize, 5, 7, 9] {
+        r.inst(&format!("f64/L2/column_major_precomputed/incremental/p{}", p), |o| go_f_order_centroids::<f64, _>(o, L2Dist, p, true));
+    }
+    r.inst("f64/L2/column_major_precomputed/batch/p5", |o| go_f_order_centroids::<f64, _>(o, L2Dist, 5, false));
+    r.inst("f32/L2/column_major_precomputed/incremental/p9", |o| go_f_order_centroids::<f32, _>(o, L2Dist, 9, true));
+    r.inst("f64/L1/column_major_precomputed/incremental/p7", |o| go_f_order_centroids::<f64, _>(o, L1Dist, 7, true));
+    r.inst("f32/L1/column_major_precomputed/incremental/p4", |o| go_f_order_centroids::<f32, _>(o, L1Dist, 4, true));
+    r.inst("f64/Lp(3)/column_major_precomputed/incremental/p5", |o| go_f_order_centroids::<f64, _>(o, LpDist(3.0), 5, true));
     r.inst("f64/L2/kmeans++", |o| go::<f64, _>(o, L2Dist, KMeansInit::KMeansPlusPlus, false));
     r.inst("f64/L1/random", |o| go::<f64, _>(o, L1Dist, KMeansInit::Random, false));
     r.inst("f64/Lp(1.5)/kmeans++", |o| go::<f64, _>(o, LpDist(1.5), KMeansInit::KMeansPlusPlus, false));
@@ -119,6 +161,7 @@ fn kmeans_init(r: &mut Runner) {
     r.inst("f64/Precomputed", |o| go::<f64>(o, KMeansInit::Precomputed(ndarray::array![[0.1 + 0.2, -0.0], [1e-310, 4.0], [f64::MAX, f64::MIN_POSITIVE]])));
     r.inst("f32/Precomputed", |o| go::<f32>(o, KMeansInit::Precomputed(ndarray::array![[0.1f32 + 0.2, -0.0], [1e-40, 4.0]])));
     r.inst("f32/KMeansPlusPlus", |o| go::<f32>(o, KMeansInit::KMeansPlusPlus));
+    r.inst("f64/Precomputed(column-major 3x5)", |o| go::<f64>(o, KMeansInit::Precomputed(to_f_order(&blobs::<f64>(3, 5, 3, 3).0))));
 }
 
 type KmP<F, D> = KMeansParams<F, Xoshiro256Plus, D>;
@@ -156,6 +199,18 @@ fn kmeans_param_points<F: Float, D: Distance<F> + Clone>(d: D) -> Vec<(&'static 
 }
 
 fn kmeans_params(r: &mut Runner) {
+    r.inst("f32/L2/column_major_precomputed/p7", |o| {
+        let (params, x, q) = kmeans_f_order_params::<f32>(7);
+        let obs = |p: &KmP<f32, L2Dist>| {
+            let mut ob = Ob::new();
+            match p.check_ref() {
+                Ok(v) => ob.st("check_verdict", "ok").sub("checked", kmeans_valid_obs(v, &x, &q)),
+                Err(e) => ob.st("check_verdict", format!("err: {}", e)),
+            };
+            ob.done()
+        };
+        round_trip(o, &Spec::full(&obs), &params);
+    });
     fn go<F: SF, D: Distance<F> + Serialize + DeserializeOwned + PartialEq + std::fmt::Debug + 'static>(o: &mut Out, p: KmP<F, D>) {
         let (x, _) = blobs::<F>(60, 2, 3, 12);
         let q = pool::<F>(2, Some(&x));
@@ -185,7 +240,32 @@ fn kmeans_params(r: &mut Runner) {
     }
 }
 
+/// parameter sets holding column-major Precomputed centroids (5 and 9 features): refit (batch,
+/// inside kmeans_valid_obs) must agree bit for bit between original and restored parameters
+fn kmeans_f_order_params<F: SF>(p: usize) -> (KmP<F, L2Dist>, Array2<F>, Array2<F>) {
+    let (x, _) = blobs::<F>(64, p, 3, 12);
+    let init = to_f_order(&x.slice(ndarray::s![0..3, ..]).to_owned());
+    let q = pool::<F>(p, Some(&x));
+    (KMeans::params_with(3, rng(2), L2Dist).n_runs(1).max_n_iterations(10).init_method(KMeansInit::Precomputed(init)), x, q)
+}
+
 fn kmeans_valid_params(r: &mut Runner) {
+    for p in [5usize, 9] {
+        r.inst(&format!("f64/L2/column_major_precomputed/p{}", p), |o| {
+            let (params, x, q) = kmeans_f_order_params::<f64>(p);
+            let v = o.need("check", params.check());
+            let obs = |v: &KmV<f64, L2Dist>| {
+                let mut ob = kmeans_valid_obs(v, &x, &q);
+                // incremental first step from the parameters' own centroids
+                match v.fit_with(None, &Dataset::from(x.clone())) {
+                    Ok(m) | Err(IncrKMeansError::NotConverged(m)) => ob.sub("refit_with", kmeans_obs(&m, &q)),
+                    Err(e) => ob.st("refit_with.error", format!("{:?}", e)),
+                };
+                ob.done()
+            };
+            round_trip(o, &Spec::full(&obs), &v);
+        });
+    }
     fn go<F: SF, D: Distance<F> + Serialize + DeserializeOwned + PartialEq + std::fmt::Debug + 'static>(o: &mut Out, p: KmP<F, D>) {
         let (x, _) = blobs::<F>(60, 2, 3, 12);
         let q = pool::<F>(2, Some(&x));
